@@ -5,6 +5,8 @@
 package vsync
 
 import (
+	"fmt"
+	"sort"
 	"sync"
 
 	"verif/shim/vsched"
@@ -236,4 +238,62 @@ func (c *Cond) Broadcast() {
 		return
 	}
 	c.real.Broadcast()
+}
+
+// Map mirrors sync.Map; every operation is one scheduling point followed by the real (atomic) operation.
+// Range iterates over a snapshot in sorted key order when keys are strings or integers, so that executions
+// stay repeatable.
+type Map struct{ real sync.Map }
+
+func (m *Map) Load(k any) (any, bool) { vsched.Yield("Map.Load"); return m.real.Load(k) }
+func (m *Map) Store(k, v any)         { vsched.Yield("Map.Store"); m.real.Store(k, v) }
+func (m *Map) LoadOrStore(k, v any) (any, bool) {
+	vsched.Yield("Map.LoadOrStore")
+	return m.real.LoadOrStore(k, v)
+}
+func (m *Map) LoadAndDelete(k any) (any, bool) {
+	vsched.Yield("Map.LoadAndDelete")
+	return m.real.LoadAndDelete(k)
+}
+func (m *Map) Delete(k any)              { vsched.Yield("Map.Delete"); m.real.Delete(k) }
+func (m *Map) Swap(k, v any) (any, bool) { vsched.Yield("Map.Swap"); return m.real.Swap(k, v) }
+func (m *Map) CompareAndSwap(k, o, n any) bool {
+	vsched.Yield("Map.CompareAndSwap")
+	return m.real.CompareAndSwap(k, o, n)
+}
+func (m *Map) CompareAndDelete(k, o any) bool {
+	vsched.Yield("Map.CompareAndDelete")
+	return m.real.CompareAndDelete(k, o)
+}
+func (m *Map) Clear() { vsched.Yield("Map.Clear"); m.real.Clear() }
+func (m *Map) Range(f func(k, v any) bool) {
+	vsched.Yield("Map.Range")
+	type kv struct{ k, v any }
+	var all []kv
+	m.real.Range(func(k, v any) bool { all = append(all, kv{k, v}); return true })
+	sort.SliceStable(all, func(i, j int) bool { return fmt.Sprint(all[i].k) < fmt.Sprint(all[j].k) })
+	for _, e := range all {
+		if !f(e.k, e.v) {
+			return
+		}
+	}
+}
+
+// OnceFunc, OnceValue and OnceValues mirror the helpers of package sync on the shim's Once.
+func OnceFunc(f func()) func() {
+	var o Once
+	return func() { o.Do(f) }
+}
+
+func OnceValue[T any](f func() T) func() T {
+	var o Once
+	var r T
+	return func() T { o.Do(func() { r = f() }); return r }
+}
+
+func OnceValues[T1, T2 any](f func() (T1, T2)) func() (T1, T2) {
+	var o Once
+	var r1 T1
+	var r2 T2
+	return func() (T1, T2) { o.Do(func() { r1, r2 = f() }); return r1, r2 }
 }
